@@ -5,6 +5,7 @@ package main
 // through the query API.
 
 import (
+	"golang.org/x/sys/unix"
 	"fmt"
 	"os"
 	"path/filepath"
@@ -148,6 +149,10 @@ func writeEntry(path string, e *absEntry) {
 			tgt := path + ".tgtdir"
 			_ = os.MkdirAll(tgt, 0o755)
 			_ = os.Symlink(tgt, path)
+		case "fifo": // only under names without a Spec extension: reading one would block
+			_ = unix.Mkfifo(path, 0o644)
+		case "socket":
+			_ = unix.Mknod(path, unix.S_IFSOCK|0o644, 0)
 		}
 	}
 }
@@ -253,11 +258,14 @@ func richEdits(r *hx.R, e *specs.ContainerEdits, tag string) {
 	if r.Chance(0.3) {
 		e.Env = append(e.Env, hx.Pick(r, []string{"SHARED=", "COMMON="})+tag)
 	}
+	if r.Chance(0.3) {
+		e.AdditionalGIDs = hx.Pick(r, [][]uint32{{0, 5, 0, 7}, {0, 9}, {5, 5, 6}, {7}})
+	}
 	hostRichEdits(r, e)
 }
 
 var specNames = []string{"a.json", "b.yaml", "c.json", "d.yaml", ".json"}
-var nonSpecNames = []string{"x.yml", "y.json.bak", "noext", "UP.JSON", "z.yaml~"}
+var nonSpecNames = []string{"x.yml", "y.json.bak", "noext", "UP.JSON", "z.yaml~", "aa", "b.sock", "0fifo"}
 var invalidKinds = []string{"syntax", "nodevices", "dupnames", "empty", "dangling", "linktodir", "badkind"}
 
 func genEntry(r *hx.R, dirTag string, used map[string]bool, rich bool, faults bool) *absEntry {
@@ -292,6 +300,16 @@ func genEntry(r *hx.R, dirTag string, used map[string]bool, rich bool, faults bo
 		e.Spec = genValidSpec(r, dirTag+"/"+name, rich)
 	case entInvalid:
 		e.Invalid = hx.Pick(r, invalidKinds)
+		isSpecName := filepath.Ext(name) == ".json" || filepath.Ext(name) == ".yaml"
+		if r.Chance(0.25) {
+			// a special file: ignored under a non-Spec name, an unloadable Spec file under a Spec name; it must never hide
+			// the entries that sort after it
+			if isSpecName {
+				e.Invalid = "socket"
+			} else {
+				e.Invalid = hx.Pick(r, []string{"fifo", "socket"})
+			}
+		}
 	case entSub:
 		e.SubFile = r.Chance(0.5)
 	}
